@@ -3,6 +3,6 @@ slot=$1; shift
 for pk in "$@"; do
   set -- $pk
   git -C /work/seedtest$slot/verif checkout -q -f --detach main 2>/dev/null
-  (cd /verif && VERIF_DIR=/work/seedtest$slot/verif python3 tools/eval_seed.py $1 $2 --reeval > /tmp/qa/reeval_$1_$2.log 2>&1)
+  (cd /verif && VERIF_DIR=/work/seedtest$slot/verif python3 tools/eval_seed.py $1 $2 --reeval $REEVAL_FLAGS > /tmp/qa/reeval_$1_$2.log 2>&1)
   echo "$1-$2 $(grep -E '"detected"|suite_tail|suite_new' /tmp/qa/reeval_$1_$2.log | tr -d '\n')" >> /tmp/qa/reevals.txt
 done
